@@ -200,3 +200,28 @@ Definition utf8_strict_pair (d : dfa) (D : pset) (q : qid) (u : ustate) : bool :
                     then pmem (dstep d q (UB b)) D else true) all_bytes.
 Definition utf8_strict_ok (d : dfa) (P : upairs) (D : pset) : bool :=
   forallb (fun kv => forallb (utf8_strict_pair d D (fst kv)) (snd kv)) (PositiveMap.elements P).
+
+(* ---------- ties (C08) ---------- *)
+Definition max_prio (d : dfa) (ms : list leaf) : N := fold_right (fun l acc => N.max (prio d l) acc) 0 ms.
+(* the leaves of q's match list that carry the greatest priority *)
+Definition tie_leaves (d : dfa) (q : qid) : list leaf :=
+  filter (fun l => prio d l =? max_prio d (dmatch d q)) (dmatch d q).
+(* the conflicts the derive must report: one leaf set per DFA state whose winner is a tie *)
+Definition ties (d : dfa) : list (list leaf) :=
+  flat_map (fun kv => if win_tie (win d (fst kv)) then [tie_leaves d (fst kv)] else [])
+           (PositiveMap.elements (d_states d)).
+
+(* reachability hint: q |-> (predecessor, unit (0..255 byte, 256 end of input), depth) *)
+Definition unit_of_N (u : N) : unit_ := if u <? 256 then UB u else UEoi.
+Definition reachmap := PositiveMap.t (qid * N * N).
+Definition reach_entry (d : dfa) (H : reachmap) (q : qid) (e : qid * N * N) : bool :=
+  match e with
+  | (p, u, n) =>
+      Pos.eqb (dstep d p (unit_of_N u)) q && (u <=? 256) &&
+      (Pos.eqb p (d_start d)
+       || match PositiveMap.find p H with
+          | Some (_, u', n') => (u' <? 256) && (n' <? n)
+          | None => false end)
+  end.
+Definition reach_ok (d : dfa) (H : reachmap) : bool :=
+  forallb (fun kv => reach_entry d H (fst kv) (snd kv)) (PositiveMap.elements H).
